@@ -35,10 +35,12 @@ import (
 	"strconv"
 	"strings"
 	"sync"
+	"sync/atomic"
 	"time"
 
 	"brvharness/internal/hx"
 
+	"github.com/google/uuid"
 	"github.com/tokenized/bitcoin_reader"
 	"github.com/tokenized/pkg/bitcoin"
 	"github.com/tokenized/pkg/merkle_proof"
@@ -158,6 +160,8 @@ type spy struct {
 	digests   map[bitcoin.Hash32]uint64
 	lastSeen  chan struct{}
 	lastOnce  sync.Once
+	slow        *slowCanceller
+	handlerDone atomic.Bool
 }
 
 var errScripted = errors.New("scripted failure")
@@ -177,12 +181,35 @@ func showID(h bitcoin.Hash32) string {
 
 func (s *spy) signalLast() { s.lastOnce.Do(func() { close(s.lastSeen) }) }
 
+// slowCanceller is a block requestor whose CancelBlockRequest is still under way while the rest of the block
+// arrives: it reports "already started" only after the handler has come to the end of its stream, or after a
+// patient 100 ms when the handler (rightly) waits for the cancel to finish.
+type slowCanceller struct {
+	id      uuid.UUID
+	entered chan struct{}
+	s       *spy
+}
+
+func (c *slowCanceller) ID() uuid.UUID { return c.id }
+
+func (c *slowCanceller) CancelBlockRequest(ctx context.Context, hash bitcoin.Hash32) bool {
+	close(c.entered)
+	hx.Until(100*time.Millisecond, func() bool { return c.s.handlerDone.Load() })
+	return true
+}
+
 func (s *spy) ProcessTx(ctx context.Context, tx *wire.MsgTx) (bool, error) {
 	k := s.ptxCalls
 	s.ptxCalls++
 	s.add("p" + showID(*tx.TxHash()))
 	if k == s.cancelAt {
-		s.bd.Cancel(ctx)
+		if s.slow != nil {
+			// the cancel runs in another goroutine and is still inside the requestor when this call returns
+			go s.bd.Cancel(ctx)
+			<-s.slow.entered
+		} else {
+			s.bd.Cancel(ctx)
+		}
 		s.signalLast()
 	}
 	if k == s.perr {
@@ -402,6 +429,10 @@ func runBlock(a hx.Args) (string, bool) {
 	}
 	bd := bitcoin_reader.NewBlockDownloader(s, s, requested, int(height))
 	s.bd = bd
+	if a["slowc"] == "1" {
+		s.slow = &slowCanceller{id: uuid.New(), entered: make(chan struct{}), s: s}
+		bd.SetCanceller(s.slow.id, s.slow)
+	}
 	if pre {
 		bd.Cancel(ctx)
 	}
@@ -456,6 +487,7 @@ func runBlock(a hx.Args) (string, bool) {
 	ret, ptxt := hx.Guard(func() string {
 		return errClass(bd.HandleBlock(ctx, header, count, ch))
 	})
+	s.handlerDone.Store(true)
 	close(done)
 	wg.Wait()
 	note := ""
@@ -508,6 +540,7 @@ type blk struct {
 	cberr  bool
 	cferr  int
 	sterr  bool
+	slowc  bool
 }
 
 func clean(n int) *blk {
@@ -561,9 +594,13 @@ func b2i(v bool) int {
 }
 
 func (b *blk) emit() {
-	fmt.Printf("block n=%d height=%d count=%d recv=%s rel=%s hdr=%s perr=%s cancel=%s pre=%d cend=%d cberr=%d cferr=%s sterr=%d\n",
+	extra := ""
+	if b.slowc {
+		extra = " slowc=1"
+	}
+	fmt.Printf("block n=%d height=%d count=%d recv=%s rel=%s hdr=%s perr=%s cancel=%s pre=%d cend=%d cberr=%d cferr=%s sterr=%d%s\n",
 		b.n, b.height, b.count, hx.IntList(b.recv), hx.IntList(b.rel), b.hdr, opt(b.perr), opt(b.cancel),
-		b2i(b.pre), b2i(b.cend), b2i(b.cberr), opt(b.cferr), b2i(b.sterr))
+		b2i(b.pre), b2i(b.cend), b2i(b.cberr), opt(b.cferr), b2i(b.sterr), extra)
 }
 
 func without(xs []int, i int) []int {
@@ -592,6 +629,9 @@ func corruptions(n int, relOf func(*blk) *blk, dupTail bool) {
 		e(func(b *blk) { b.recv = b.recv[:i] })                                // stream cut before tx i
 		e(func(b *blk) { b.perr = i })                                         // processor error at call i
 		e(func(b *blk) { b.cancel = i })                                       // cancelled during tx i
+		if i%2 == 0 || i == n-1 {
+			e(func(b *blk) { b.cancel = i; b.slowc = true }) // the cancel is still inside the requestor while the rest arrives
+		}
 		e(func(b *blk) { b.cferr = i })                                        // ConfirmTx error at call i
 		if i+1 < n {
 			e(func(b *blk) { b.recv[i], b.recv[i+1] = b.recv[i+1], b.recv[i] }) // neighbours reordered
